@@ -104,6 +104,39 @@ PROPS["C11"] = dict(
                  "the per-worker arc_swap::Cache and SIGUSR1 delivery are runtime"],
 )
 
+PROPS["C12"] = dict(
+    suites=[dict(name="fuzz-misc", harness="fuzz-misc", imports=["FuzzCheck"], case_type="bool * list (N * N * N)",
+                 check="fuzz_code", monitor="fuzz_code", count_quick=250, count_thorough=20000, nontrivial_bits=3, shrink=False,
+                 crash_is_violation=True, crash_note="C12 allows no input to panic or abort a parser"),
+            dict(name="udp-codec-malformed", harness="udp-codec", imports=["UdpCodecGen", "UdpCodecFacts"], case_type="bool * list codec_case",
+                 check="udp_codec_code", monitor="udp_codec_code", count_quick=300, count_thorough=20000, nontrivial_bits=3, shrink=False,
+                 crash_is_violation=True),
+            dict(name="http-req-malformed", harness="http-req", imports=["HttpCodecCheck"], case_type="bool * list http_req_case",
+                 check="http_req_code", monitor="http_req_code", count_quick=200, count_thorough=10000, nontrivial_bits=3, shrink=False,
+                 crash_is_violation=True),
+            dict(name="ws-codec-malformed", harness="ws-codec", imports=["WsCodecCheck"], case_type="bool * list ws_codec_case",
+                 check="ws_codec_code", monitor="ws_codec_code", count_quick=100, count_thorough=10000, nontrivial_bits=3, shrink=False,
+                 crash_is_violation=True),
+            udp_suite("udp-swarm-extremes", 0b00011, monitor="mon_c01", count_quick=200),
+            http_suite("http-swarm-extremes", 0b00011, monitor="mon_c07", count_quick=200),
+            ws_suite("ws-swarm-extremes", count_quick=160)],
+    rule="fuzz-misc (TESTING): per case one deeply nested message (JSON arrays/objects up to the 64 KiB websocket_max_message_size through the "
+         "ws server and client parsers on a 2 MiB stack in a child process; bencode lists/dicts up to the http client's 2048-byte buffer) and "
+         "8 inputs of 7 kinds (random bytes, peer ids of every client style, nested JSON, over-long ws strings, http request texts with odd "
+         "'=', '&', '%', '?' and non-UTF-8, bencode fragments, udp headers + junk), each through EVERY parser (udp request/response, http "
+         "request/path/response, ws in/out messages from text and binary frames, PeerId::client/Display/first_8_bytes_hex) under catch_unwind "
+         "with a counting allocator: no panic, no abort, and bytes requested <= 128 * len + 8192 per call; codec suites: the malformed streams "
+         "of C13/C14/C15 (truncation at random offsets, extension, bit flips, field overwrites, wrong lengths) compared with the models; swarm "
+         "suites: the handler histories with numwant in {i32::MIN,-1,0,..,i32::MAX}, left in {-1,i64::MIN,usize::MAX}, max_response_peers in "
+         "{0,1,..}; any implementation panic is a violation; the harness is a debug build (overflow checks on); non-trivial = a case mixing "
+         "unstructured and structure-aware inputs (fuzz) / accepted and rejected inputs (codecs) / inline->heap->inline (histories)",
+    modelled="the three swarm handlers with explicit panic points (PeerMap.v, UdpSwarm.v, HttpSwarm.v, WsSwarm.v); the udp/http/ws codec models are "
+             "total functions mirroring checked reads; NOT modelled: httparse, simd-json/serde_json, serde_bencode, tungstenite, the regex engine "
+             "and PeerClient::from_peer_id (fuzzed only)",
+    assumptions=["third-party parser interiors are exercised by testing only", "allocation is measured as bytes requested per parser call by a counting global allocator",
+                 "stack depth is probed with the socket workers' 2 MiB default thread stack"],
+)
+
 PROPS["C05"] = dict(
     suites=[dict(name="validator", harness="validator", imports=["Validator"],
                  case_type="N * list (string * N) * list (N * string * string * bool)",
@@ -312,6 +345,16 @@ LEVELS["C11"] = dict(
          "entries untouched (udp, http, ws); tied to the code through the real update_access_list on generated files and the storages' clean.",
     design_ref="DESIGN.md §7 C11", technique="Coq theorems over the file grammar and the clean step + in-Coq correspondence",
     note="Trusted: Coq kernel, models, harness. Partial: Unicode white space / UTF-8 validation of std, arc_swap cache, signal delivery.")
+
+LEVELS["C12"] = dict(
+    text="Partial. Theorems: every history of the udp, http and ws swarm handlers from the empty tracker, for all field values (numwant and left "
+         "over all of Z), returns Ok in models where each Rust panic point (counter underflow, ArrayVec overflow, selection indices) is an "
+         "explicit Panic; a udp scrape stores <= max_scrape_torrents hashes and <= len/20; an http scrape query stores <= one hash per byte. "
+         "Parsers 'return an error instead of panicking' and the allocation multiple are established by differential testing only (malformed "
+         "streams, deep nesting, over-long identifiers) - third-party parser interiors are not modelled.",
+    design_ref="DESIGN.md §7 C12", technique="Coq totality theorems for the handler models + differential fuzz-style correspondence (testing) for the parsers",
+    note="Trusted: Coq kernel, models, harness. The parser half of this property is TESTING (not proof): httparse, simd-json, serde_bencode, "
+         "tungstenite, regex are outside the model. One defect found and fixed (stack overflow on deeply nested ws JSON).")
 
 LEVELS["C05"] = dict(
     text="Theorems for every keyed-hash function, every time, age (0..2^32-1) and address: exact acceptance window; the accepted strings are "
